@@ -4,6 +4,7 @@ import (
 	"fmt"
 	"go/ast"
 	"go/types"
+	"os"
 	"sort"
 	"strings"
 	"sync"
@@ -730,17 +731,17 @@ func (fc *FnCtx) applyModifies(con *Contract, se *SpecEnv, pre *State) error {
 	return nil
 }
 
-// channelAxioms: whatever code runs, the ghost state of channels only grows: send counters are monotone, a closed
-// channel stays closed, and the log of sent values is append-only (entries below the old send count are kept).
+// channelAxioms: whatever code runs, the ghost log of the values sent on a channel is append-only (entries below
+// the old send count are kept). Monotonicity of the counters and of the closed flag is equally true but the extra
+// quantifiers made other proofs unstable, so they are not asserted.
 func (fc *FnCtx) channelAxioms(comp, oldT, newT, sentBefore string) {
+	if os.Getenv("GOVC_NOCHANAX") != "" {
+		return
+	}
 	fc.vc.nfresh++
 	c := fmt.Sprintf("q!c!%d", fc.vc.nfresh)
 	n := fmt.Sprintf("q!n!%d", fc.vc.nfresh)
 	switch {
-	case comp == "CN.sent" || comp == "CN.recvd":
-		fc.vc.assume(fc.cur.reach, "(forall (("+c+" Int)) (! (>= (select "+newT+" "+c+") (select "+oldT+" "+c+")) :pattern ((select "+newT+" "+c+")) :qid chan.monotone))")
-	case comp == "CN.closed":
-		fc.vc.assume(fc.cur.reach, "(forall (("+c+" Int)) (! (=> (select "+oldT+" "+c+") (select "+newT+" "+c+")) :pattern ((select "+newT+" "+c+")) :qid chan.closed))")
 	case strings.HasPrefix(comp, "CL."):
 		fc.vc.assume(fc.cur.reach, "(forall (("+c+" Int) ("+n+" Int)) (! (=> (< "+n+" (select "+sentBefore+" "+c+")) (= (select (select "+newT+" "+c+") "+n+") (select (select "+oldT+" "+c+") "+n+"))) :pattern ((select (select "+newT+" "+c+") "+n+")) :qid chan.log))")
 	}
